@@ -1220,7 +1220,9 @@ fn trace_part(mg: &MoveGenerator, rep: &Report, roots: &[roots::Root], thorough:
                             got.len() - dedup.len(),
                             flag
                         ),
-                        vec!["c17-trace-one".to_string(), "--fen".into(), fen.clone()],
+                        // replayed in its context (same start, same preparation, same budget): what a
+                        // node does may depend on where in the search and in the budget it is visited
+                        vec!["c17-trace-ctx".to_string(), "--fen".into(), eng::fen_of(b), "--node".into(), fen.clone(), "--cap".into(), cap.to_string(), "--after-search".into(), phase.to_string()],
                         J::Null,
                     );
                 }
@@ -1638,6 +1640,54 @@ pub fn replay_hist(which: Which, fens: &str) -> i32 {
 
 /// Replay of one traced quiescence node: runs the real quiescence search from the FEN and
 /// checks the root node's list (the first trace entry).
+/// Replay of a node whose chosen list was wrong, in its context: the same start state, the same
+/// preparation (phase) and the same budget; the node is looked for in the trace.
+pub fn replay_trace_ctx(start_fen: &str, node_fen4: &str, cap: u64, phase: u8) -> i32 {
+    use crate::search::Searcher;
+    let b = eng::board_of_fen(start_fen).unwrap();
+    crate::timer::verif::set_node_clock(Some(1));
+    let mut s = Searcher::new();
+    if phase == 1 {
+        let _ = guard(|| s.find_best_move(&b, 2, Some(std::time::Duration::from_millis(2500))));
+        crate::timer::verif::set_node_clock(Some(1));
+    }
+    if phase == 2 {
+        let mg = MoveGenerator::new();
+        for m in mg.generate_moves(&b) {
+            let c = b.clone_with_move(&m);
+            s.push_position(&c);
+            s.push_position(&c);
+        }
+    }
+    crate::search::verif::set_quiescence_trace(true);
+    let _ = guard(|| s.verif_quiesce(&b, Some(std::time::Duration::from_millis(cap))));
+    let trace = crate::search::verif::take_quiescence_trace();
+    let _ = crate::search::verif::take_quiescence_events();
+    crate::search::verif::set_quiescence_trace(false);
+    for (tb, flag, list) in &trace {
+        let p = match eng::pos_of(tb) {
+            Ok(p) => p,
+            Err(_) => continue,
+        };
+        if p.fen4() != node_fen4 {
+            continue;
+        }
+        let in_check = p.in_check(p.stm);
+        let mut want = if in_check { p.legal_moves() } else { p.tactical_moves() };
+        want.sort();
+        let mut got: Vec<Mv> = list.iter().map(eng::mv_of).collect();
+        got.sort();
+        let mut dedup = got.clone();
+        dedup.dedup();
+        if *flag != in_check || dedup != want || dedup.len() != got.len() {
+            println!("REPLAY-VIOLATION C17 fen={} qnode :: in the quiescence search from {} the node examines [{}], expected [{}], in-check flag {} (rules: {})", node_fen4, start_fen, eng::moves_text(&got), eng::moves_text(&want), flag, in_check);
+            return 1;
+        }
+    }
+    println!("REPLAY-OK C17 node {} in the search from {}", node_fen4, start_fen);
+    0
+}
+
 pub fn replay_trace_one(fen: &str) -> i32 {
     use crate::search::Searcher;
     let p = Pos::from_fen(fen).unwrap();
